@@ -164,10 +164,16 @@ def gen_history(rnd, nops):
                 elif args[j] is args[0] and name not in ('arrayExtend', 'objectAssign'):
                     args[j] = 8
                     asrc[j] = ('lit', 8)
-        store = rnd.random() < 0.3 and name in ('arrayCopy', 'arraySlice', 'objectCopy', 'arrayNew', 'objectNew', 'objectKeys', 'arrayExtend', 'arrayPush', 'arraySort', 'objectAssign')
-        tgt = f'c{4 + rnd.randint(0, 1)}' if store else 'r'
+        # any call whose result is a container may be kept in the pool (c4/c5) and mutated later: results are fresh unless the
+        # function is documented to return its argument, whatever was computed before for the same arguments
+        want = rnd.random() < 0.3
+        slot = f'c{4 + rnd.randint(0, 1)}'
+        res = apply_call(pool, name, args, 'r', False)
+        store = want and isinstance(res, (list, dict))
+        tgt = slot if store else 'r'
+        if store:
+            pool[tgt] = res
         steps.append(('call', name, asrc, tgt, store))
-        apply_call(pool, name, args, tgt, store)
     return steps
 
 
@@ -206,7 +212,7 @@ def to_script(steps):
     return '\n'.join(lines)
 
 
-def run_model(steps, bool_num=False):
+def run_model(steps, bool_num=False, stop_on_cycle=False):
     """Replay the abstract history on a fresh shadow pool; returns the expected [result, pool] per call step."""
     ref_seq.BOOL_NUM[0] = bool_num
     try:
@@ -221,10 +227,20 @@ def run_model(steps, bool_num=False):
             else:
                 _, fn, asrc, tgt, store = st
                 args = [pool.get(a[1]) if a[0] == 'var' else a[1] for a in asrc]
-                res = apply_call(pool, fn, args, tgt, store)
+                try:
+                    res = apply_call(pool, fn, args, tgt, store)
+                except RecursionError:
+                    if stop_on_cycle:
+                        return out
+                    raise
                 shown = res
                 snap = [pool.get(f'c{i}') for i in range(6)]
-                out.append((fn, res if res == ('ANY',) else json.loads(ref_seq.jtext(shown)), json.loads(ref_seq.jtext(snap))))
+                try:
+                    out.append((fn, res if res == ('ANY',) else json.loads(ref_seq.jtext(shown)), json.loads(ref_seq.jtext(snap))))
+                except RecursionError:
+                    if stop_on_cycle:
+                        return out
+                    raise
         return out
     finally:
         ref_seq.BOOL_NUM[0] = False
@@ -285,8 +301,15 @@ def check_history(steps, acc, api, case=None):
         if len(acc.samples) < 2:
             acc.sample({'script_head': text.split('\n')[:14], 'steps': ncalls})
         return
-    exp14 = run_model(steps, bool_num=True)
-    if compare(logs, exp14) is None:
+    try:
+        exp14 = run_model(steps, bool_num=True)
+        cyc = False
+    except RecursionError:
+        # under finding F14 a boolean index is accepted, so the no-cycle construction of the generator (made with the strict
+        # model) does not hold: the history built a cyclic container. Compare the prefix before the first cyclic snapshot.
+        exp14 = run_model(steps, bool_num=True, stop_on_cycle=True)
+        cyc = True
+    if (compare(logs, exp14) is None) if not cyc else (bad < len(exp14) and compare(logs[:len(exp14)], exp14) is None):
         fn = exp[bad][0] if bad < len(exp) else '?'
         acc.known_finding('F14', f'{fn} step {bad}: {text.split(chr(10))[4 + 2 * bad] if 4 + 2 * bad < len(text.split(chr(10))) else ""}')
         return
@@ -307,12 +330,20 @@ def run_histories(spec, acc, api):
         check_history(steps, acc, api)
 
 
+FRAGMENTS = ['a', 'b', 'x', '{2}', '{1,2}', '{0,}', '{,3}', '{1}', '*', '+', '?', '.', '(', ')', '(?:', '(?=a)', '[a-c]', '[^a]', '\\d', '\\w+', '\\', '^', '$', '|', '-', ' ', '#', '\n',
+             '(?i)', '\\1', '\\b', '{', '}', ',', '0', '12']
+
+
 def run_escapes(spec, acc, api):
     bare_script, lib = api
     rnd = random.Random(spec['seed'] * 7919 + 89)
-    chars = list('ab.*+?()[]{}|^$\\/-,: \n\t"\'<>#%&=;@~`') + ['é', ' ', '\U0001F600', 'ß', '\x00']
+    chars = list('ab012.*+?()[]{}|^$\\/-,: \n\t"\'<>#%&=;@~`') + ['é', ' ', '\U0001F600', 'ß', '\x00']
     for i in range(spec['n']):
-        s = ''.join(rnd.choice(chars) for _ in range(rnd.randint(0, 8)))
+        if i % 3 == 2:
+            # texts that READ like regular expressions (quantifier braces, classes, anchors, escapes)
+            s = ''.join(rnd.choice(FRAGMENTS) for _ in range(rnd.randint(1, 4)))
+        else:
+            s = ''.join(rnd.choice(chars) for _ in range(rnd.randint(0, 8)))
         acc.case('esc:' + s, len(s) >= 1)
         case = {'s': s}
         try:
@@ -334,6 +365,8 @@ def run_escapes(spec, acc, api):
             elif t:
                 del t[rnd.randrange(len(t))]
             t = ''.join(t)
+            if _ == 0 and len(s) >= 2:
+                t = s[0] * 2 + s[1:] if rnd.random() < 0.5 else s[:-1]  # what a quantifier / optional reading of the text would match
             if t != s and rx.fullmatch(t) is not None:
                 acc.violation('regexEscape-matches-neighbour', f'{s!r} -> {pat!r} also matches {t!r}', case)
                 break
